@@ -269,6 +269,10 @@ def cases(draw, tier="quick"):
         case["stepmask"] = draw(st.lists(st.booleans(), min_size=4, max_size=24))
     if key != "ptrnet" and mode.startswith("multistart") and draw(st.integers(0, 2)) == 0:
         case["warm_split"] = True
+    # (not for the non-autoregressive decoder: it reads td["action"] as "the previous action" by design, so a td that
+    #  carries a stored rollout is not an input it supports - no bundled model pairs it with PPO)
+    if key not in ("ptrnet", "nar", "nar_coarse") and not mode.startswith("multi") and draw(st.integers(0, 2)) == 0:
+        case["td_ppo"] = True
     if key != "ptrnet" and draw(st.integers(0, 2)) == 0:
         # the evaluate call of the round trip also carries a decode_type (a caller forwarding one set of decoding kwargs
         # to rollout and re-evaluation): given actions are evaluated whatever decode type is named
@@ -653,8 +657,14 @@ def _run(case, ctx, env, inst, td0, policy, cfg, kw, tkw, slice_, tol, Tm, C, st
                 ctx.guard(policy, tdw, env_arg, what=f"policy_other_split_first|{slice_}", decode_type="greedy", **tkw)
                 ctx.event("history:other_split_first|plain_rows")
     torch.manual_seed(case["tseed"])
+    opts0 = (policy.temperature, policy.tanh_clipping, getattr(policy, "mask_logits", None))
     with torch.no_grad():
         out = ctx.guard(policy, td0.clone(), env_arg, what=f"policy|{slice_}", **kw)
+    # per-call decoding options are options of the CALL: the policy's configured defaults stay what they were
+    opts1 = (policy.temperature, policy.tanh_clipping, getattr(policy, "mask_logits", None))
+    ctx.check(opts1 == opts0, f"policy_options_changed_by_call|{slice_}",
+              f"(temperature, tanh_clipping, mask_logits) of the policy object were {opts0} before the call with decoding "
+              f"kwargs {sorted(k_ for k_ in kw if k_ in ('temperature', 'tanh_clipping', 'mask_logits'))} and are {opts1} after it")
     A = out["actions"]
     R = B if (select_best or ksteps == 0) else B * k
     T = A.shape[1]
@@ -843,6 +853,14 @@ def _run(case, ctx, env, inst, td0, policy, cfg, kw, tkw, slice_, tol, Tm, C, st
         if case.get("eval_dt"):
             ekw["decode_type"] = case["eval_dt"]
             ctx.event(f"evaluate_with_decode_type:{case['eval_dt']}")
+        if case.get("td_ppo") and first == 0 and not multisample:
+            # the tensordict as PPO.shared_step hands it to the evaluation pass: the reset state plus the stored rollout
+            # ("action" = the whole action sequence, "logprobs", "reward") - extra entries of the td are not an input
+            td_eval = td_eval.clone()
+            td_eval.set("action", A[:, :Te].clone())
+            td_eval.set("logprobs", ref_eval.logp[:, :Te].sum(-1).to(torch.float32))
+            td_eval.set("reward", out["reward"].reshape(-1).clone().float())
+            ctx.event("evaluate_on_td_carrying_the_stored_rollout")
         with torch.no_grad():
             out2 = ctx.guard(policy, td_eval, env_arg, what=f"policy_evaluate|{slice_}", **ekw)
         ll2 = out2["log_likelihood"]
